@@ -133,9 +133,10 @@ class DynBaseRefDict(RefDict):
 
         if isinstance(value.interface, Interface) and value.interface._is_valid():
 
-            if value.is_relative:   # value.is_relative is set to True
-                                    # When value.is_defined and
-                                    # value.refmode == "relative"
+            # Not value.is_relative: a derived auto reference is not relative
+            # to its definer when it points out of the definer's tree,
+            # but it may still point into the tree of the dynamic base
+            if value.refmode != "absolute":
 
                 impl = value.interface._impl.idstr
                 root = self.owner.rootspace._dynbase.idstr
